@@ -5,11 +5,11 @@ from .rtcommon import is_true_edge, is_false_edge
 CLAIM = dict(
     level="other", engine="mirfacts", design="DESIGN.md §5 C25",
     technique="MIR guard-dominance: every state-changing store / buffer removal in Source::push_str_impl is dominated "
-              "by the `interpret_syntax = true` edge; constant-argument check at the two entry points; who-may-write",
+              "by the `interpret_syntax = true` edge; constant-argument check at the two entry points; who-may-write; must-clear of the comment flag on every path of `newline`",
     text="Decides only the clause 'text appended as literal never changes indentation or comment state for later "
          "text': in push_str_impl every store to `indent`, every store of `true` to `in_line_comment` and every removal "
          "from the buffer is reachable only when interpret_syntax is true (the removal additionally only outside a line "
-         "comment and after a two-space tail), push_str_literal passes false and push_str true. Text preservation and "
+         "comment and after a two-space tail), push_str_literal passes false and push_str true; and the comment state is line-scoped (every line end clears it, whoever appended the line). Text preservation and "
          "brace tracking quantify over string contents and are not decided.",
     note="mir")
 
@@ -121,3 +121,29 @@ def run(rep, tier):
         rep.ob("R25.4", "push_str_impl delegates only to newline", all(x.matches("Source::newline") for x in selfcalls) and bool(selfcalls),
                f"{[x.callee for x in selfcalls]}", f.loc())
     rep.guard("R25.4", "who may write", r4)
+
+    def r5():
+        # The comment state is line-scoped: whoever ends a line (interpreted or literal text) ends the comment.
+        # Accepted shapes: (a) `newline` clears the flag on every path to its return, or (b) push_str_impl clears it
+        # at a line start (under the `!continuing_line` edge only, never under the interpret flag).
+        nl = c.method("Source", "newline")
+        clears = [bb for bb, i, s in nl.field_stores("in_line_comment") if nl.stores_const(s, 0)]
+        form_a = bool(clears) and all(nl.set_dominates(set(clears), r) for r in nl.returns())
+        form_b = False
+        for bb, i, s in f.field_stores("in_line_comment"):
+            if not f.stores_const(s, 0):
+                continue
+            ge = f.guard_edges(bb)
+            on_flag = any(o.get("kind") == "arg" and o.get("n") == flag and not o.get("proj") for _, _, o in ge)
+            at_line_start = any(o.get("kind") == "arg" and o.get("n") == 1 and ".continuing_line" in o.get("proj", [])
+                                and is_false_edge(vals) for _, vals, o in ge)
+            if at_line_start and not on_flag:
+                form_b = True
+        rep.ob("R25.5", "every line end clears the comment state (in `newline` on every path, or at the next line start, "
+               "independent of the interpret flag)", form_a or form_b,
+               "a line comment can outlive its line: later interpreted braces are skipped", nl.loc())
+        # and every '\n' the buffer receives from push_str_impl comes from `newline`
+        nlcalls = f.calls("Source::newline")
+        rep.floor("R25.5", "calls of newline in push_str_impl", len(nlcalls), 1)
+    rep.guard("R25.5", "comment state is line-scoped", r5)
+
